@@ -2,10 +2,10 @@ package gosym
 
 import (
 	"fmt"
-	"regexp"
 	"go/types"
 	"os"
 	"path/filepath"
+	"regexp"
 	"sort"
 	"strings"
 
